@@ -3,6 +3,7 @@
 gtx/matrix_major_storage.inl, gtx/matrix_cross_product.inl)."""
 from props.common import *
 import functools
+from fractions import Fraction
 LEVEL = 'proof'
 CLAIM = ("All 27 mat*mat, 9 mat*vec and 9 vec*mat products, transpose, outerProduct, matrixCompMult, the element-wise + - with matrices and scalars, * / with "
          "scalars on both sides, the compound assignments (+= -= *= /= with scalar / matrix, *= matrix for square shapes), unary + -, pre/post ++ --, the scalar / "
@@ -13,9 +14,9 @@ CLAIM = ("All 27 mat*mat, 9 mat*vec and 9 vec*mat products, transpose, outerProd
 BOUNDS = ('integer element types: all values, arithmetic modulo 2^w (int32/uint32 quick; +int8/uint8/int16/uint16/int64/uint64 thorough); divisions: divisor != 0 and no INT_MIN/-1; '
           'float/double: every entry symbolic, rounding erased (each fadd/fsub/fmul/fdiv exact), real divisions under divisor != 0; IEEE-exact clause: entries integer-valued with |x| <= 2^7 '
           '(products, sums, differences; bit-precise float32 and float64 semantics, compiled with -ffp-contract=off); row()/column() for every valid constant index; '
-          'qualifiers: defaultp (quick), + packed_mediump, packed_lowp, aligned_highp under GLM_FORCE_ALIGNED_GENTYPES without intrinsics (thorough, products/conversions/transpose)')
+          'qualifiers: defaultp (quick), + packed_mediump, packed_lowp for float and int32, aligned_highp for int32 in the GLM_FORCE_INTRINSICS (SSE2) build (thorough: products, conversions, transpose/access, element-wise on 2x3 and 4x4)')
 OUTSIDE = ('magnitude of the rounding differences for general float/double entries (only the rounding-erased identity and the small-integer exact clause are decided); '
-           'IEEE-exact clause for scalar/matrix division; SIMD instruction-set builds (C03); element-type converting constructors mat<C,R,U> -> mat<C,R,T>; out-of-range row()/column() indices (assert)')
+           'IEEE-exact clause for scalar/matrix division; aligned float/double qualifiers and SIMD instruction-set builds (C03); element-type converting constructors mat<C,R,U> -> mat<C,R,T>; out-of-range row()/column() indices (assert)')
 ASSUMPTIONS = ['integer overflow in the int32/int64 products wraps modulo 2^w (the property speaks of the mathematical definition; the reference is evaluated modulo 2^w as well)',
                'rounding-erased semantics for float/double obligations named *.real; bit-precise IEEE semantics for obligations named *.exact']
 
@@ -65,8 +66,8 @@ def EW_OPS(C, R):
                 ('m*=m', '{ auto m = A; m *= B; stm(o+%d, m); }', lambda A, B, s, k: flat(mmul(unflat(A, C, R), unflat(B, C, R)))[k])]
     return ops
 
-def one(x): return z3.BitVecVal(1, x.size()) if z3.is_bv(x) else z3.RealVal(1)
-def zero(x): return z3.BitVecVal(0, x.size()) if z3.is_bv(x) else z3.RealVal(0)
+def one(x): return z3.BitVecVal(1, x.size()) if z3.is_bv(x) else (z3.IntVal(1) if z3.is_int(x) else z3.RealVal(1))
+def zero(x): return z3.BitVecVal(0, x.size()) if z3.is_bv(x) else (z3.IntVal(0) if z3.is_int(x) else z3.RealVal(0))
 def unflat(a, C, R): return [[a[c * R + r] for r in range(R)] for c in range(C)]
 def flat(m): return [x for col in m for x in col]
 def ssum(xs): return functools.reduce(lambda p, q: p + q, xs)
@@ -97,9 +98,9 @@ def int_vecmat_compiles():
         _IVM = p.returncode == 0
     return _IVM
 def has_vm(t, K, R): return isflt(t) or (K, R) not in ((3, 3), (4, 4)) or int_vecmat_compiles()
-def build_unit(t, suffix='', defines=(), only=None):
+def build_unit(t, suffix='', defines=(), only=None, cflags=()):
     ct = TYPES[t]
-    U = Unit('c02_%s%s' % (t, suffix), includes=INCLUDES, defines=list(defines), prelude=PRE_T % ct)
+    U = Unit('c02_%s%s' % (t, suffix), includes=INCLUDES, defines=list(defines), cflags=list(cflags), prelude=PRE_T % ct)
     _add = U.add
     U.add = lambda name, *a: _add(name, *a) if (only is None or name in only) else None
     for (K, R) in SHAPES:       # A: K columns, R rows
@@ -147,9 +148,10 @@ def build_unit(t, suffix='', defines=(), only=None):
     return U
 
 UNITS = {t: build_unit(t) for t in TYPES}
-QVARS = {'mediump': ('_mediump', ['QQ=glm::packed_mediump']), 'lowp': ('_lowp', ['QQ=glm::packed_lowp']),
-         'aligned': ('_aligned', ['GLM_FORCE_ALIGNED_GENTYPES', 'QQ=glm::aligned_highp'])}
-QUNITS = {(t, q): build_unit(t, sfx, dfs) for t in ('f32', 'i32') for q, (sfx, dfs) in QVARS.items()}
+# aligned qualifiers only exist in SIMD builds on clang/gcc (GLM_LANG_EXT needs GLM_ARCH_SIMD_BIT): GLM_FORCE_INTRINSICS at the x86-64 baseline (SSE2)
+QVARS = {'mediump': ('_mediump', ['QQ=glm::packed_mediump'], []), 'lowp': ('_lowp', ['QQ=glm::packed_lowp'], []),
+         'aligned': ('_aligned', ['GLM_FORCE_INTRINSICS', 'GLM_FORCE_ALIGNED_GENTYPES', 'QQ=glm::aligned_highp'], [])}
+QUNITS = {(t, q): build_unit(t, sfx, dfs, cflags=cf) for t in ('f32', 'i32') for q, (sfx, dfs, cf) in QVARS.items() if not (t == 'f32' and q == 'aligned')}   # float SIMD paths: C03
 def tier_types(tier): return QUICK_TYPES if tier == 'quick' else list(TYPES)
 def units(tier):
     us = [UNITS[t] for t in tier_types(tier)]
@@ -336,7 +338,8 @@ def job_cv(t, shapes, U=None):
     def run(S):
         for (C, R) in shapes:
             sp = spec_cv(C, R)
-            S.check_fn(U, 'cv_%d%d' % (C, R), mkspec(sp), mode=mode_of(t), name='%s.cv_%d%d%s' % (U.name, C, R, sfx_of(t)), mutant=mktwin(sp), timeout=S.cap(30, 90), bounds='all entry values; all 9 target shapes')
+            kn = ['KF-C02-mat4x4-from-mat4x2-%d%d' % cr for cr in ((2, 0), (2, 1), (3, 0), (3, 1))] if (C, R) == (4, 2) else []
+            S.check_fn(U, 'cv_%d%d' % (C, R), mkspec(sp), mode=mode_of(t), name='%s.cv_%d%d%s' % (U.name, C, R, sfx_of(t)), mutant=mktwin(sp), known=kn, timeout=S.cap(30, 90), bounds='all entry values; all 9 target shapes')
             fp_validate(S, U, 'cv_%d%d' % (C, R), t)
     return run
 def job_gtx(t, U=None):
@@ -351,34 +354,118 @@ def job_gtx(t, U=None):
     return run
 
 # ------------------------------------------------------------------ IEEE-exact clause: integer-valued entries |x| <= 2^7, bit-precise floating point
-def small_int_inputs(fn, t, tag):
-    """per input array: (terms as IEEE bit patterns built by int->fp conversion of 9-bit symbolic integers, the integers sign-extended to 32 bit, hypotheses)"""
-    W = 32 if t == 'f32' else 64; srt = FSORT[W]
-    ins, ints, hyps = [], [], []
-    for ai, (c, n) in enumerate(fn.ins):
-        row, irow = [], []
-        for k in range(n):
-            v = z3.BitVec('%s%s%d' % (tag, 'abcdefgh'[ai], k), 9)
-            hyps += [v >= -128, v <= 128]
-            row.append(z3.fpToIEEEBV(z3.fpSignedToFP(RNE, v, srt))); irow.append(z3.SignExt(23, v))
-        ins.append(row); ints.append(irow)
-    return ins, ints, hyps
-def job_exact(t, shapes):
-    U = UNITS[t]; W = 32 if t == 'f32' else 64; srt = FSORT[W]
-    def same(o, iref): return z3.fpEQ(o.fp, z3.fpSignedToFP(RNE, iref, srt))
+# A direct bit-precise query "fp result == sitofp(integer triple loop)" does not finish (one float32 product of two 9-bit integers: 30 s; two products and
+# a sum: > 120 s).  The clause is therefore decided compositionally:
+#  (1) structure: the S-fp output term of the real code is walked; it may only consist of fp.add/fp.sub/fp.mul (roundNearestTiesToEven, in the element
+#      precision), fp.neg / sign-bit flips, integer-valued literals and the input entries.  Anything else (fdiv, fptrunc, fma, rcp, libm call) -> not established.
+#  (2) the walk builds the same expression over mathematical integers (z3 Int) with the entries replaced by symbolic integers |k| <= 2^7; the solver proves
+#      that EVERY intermediate node is an integer of magnitude < 2^24 (also for double, where 2^53 would do), i.e. exactly representable, and
+#  (3) that the integer expression equals the textbook triple-loop reference.
+#  (4) IEEE-754 correct rounding returns the exact result whenever it is representable; the instances used here (product of two integers <= 2^7, sum and
+#      difference of integers <= 2^17) are themselves proved from the SMT-LIB FloatingPoint semantics by the solver in the jobs ieee_lemma_* .
+# Hence by induction over the term every intermediate IEEE value is the integer of (2) and the returned float equals the definition exactly.
+class Structure(Exception): pass
+def _is_rne(t): return t.decl().kind() == z3.Z3_OP_FPA_RM_NEAREST_TIES_TO_EVEN
+def int_mirror(fpterm, leaves, W, nodes, cache):
+    """fp term -> z3 Int term; appends every arithmetic node's integer mirror to nodes"""
+    def fp(t):
+        key = ('f', t.get_id())
+        if key in cache: return cache[key]
+        k = t.decl().kind()
+        if k in (z3.Z3_OP_FPA_ADD, z3.Z3_OP_FPA_SUB, z3.Z3_OP_FPA_MUL):
+            if not _is_rne(t.arg(0)): raise Structure('rounding mode ' + t.arg(0).sexpr())
+            if t.sort().ebits() + t.sort().sbits() != W: raise Structure('precision %s' % t.sort())
+            x, y = fp(t.arg(1)), fp(t.arg(2))
+            r = x + y if k == z3.Z3_OP_FPA_ADD else (x - y if k == z3.Z3_OP_FPA_SUB else x * y)
+            nodes.append(r)
+        elif k == z3.Z3_OP_FPA_NEG: r = -fp(t.arg(0))
+        elif k == z3.Z3_OP_FPA_TO_FP and t.num_args() == 1 and z3.is_bv(t.arg(0)):
+            if t.sort().ebits() + t.sort().sbits() != W: raise Structure('precision %s' % t.sort())
+            r = bits(t.arg(0))
+        elif z3.is_fp_value(t):
+            if t.isNaN() or t.isInf(): raise Structure('literal ' + t.sexpr())
+            v = z3.simplify(z3.fpToReal(t)); f = Fraction(v.numerator_as_long(), v.denominator_as_long())
+            if f.denominator != 1: raise Structure('non-integer literal %s' % f)
+            r = z3.IntVal(int(f))
+        else: raise Structure('operation ' + t.decl().name())
+        cache[key] = r; return r
+    def bits(b):
+        key = ('b', b.get_id())
+        if key in cache: return cache[key]
+        k = b.decl().kind()
+        if b.get_id() in leaves: r = leaves[b.get_id()]
+        elif k == z3.Z3_OP_FPA_TO_IEEE_BV: r = fp(b.arg(0))
+        elif k == z3.Z3_OP_BXOR and b.num_args() == 2 and z3.is_bv_value(b.arg(1)) and b.arg(1).as_long() == 1 << (W - 1): r = -bits(b.arg(0))
+        elif k == z3.Z3_OP_BXOR and b.num_args() == 2 and z3.is_bv_value(b.arg(0)) and b.arg(0).as_long() == 1 << (W - 1): r = -bits(b.arg(1))
+        elif z3.is_bv_value(b): r = fp(z3.simplify(z3.fpBVToFP(b, FSORT[W])))
+        else: raise Structure('bit-level operation ' + b.decl().name())
+        cache[key] = r; return r
+    return fp(fpterm)
+
+def exact_clause(S, U, fname, tab, t, label_filter=None):
+    W = 32 if t == 'f32' else 64
+    name = '%s.%s.exact' % (U.name, fname); fn = U.fns[fname]
+    res = sym_call(U, fname, mode='fp')
+    ints = [[z3.Int('k%s%d' % ('abcdefgh'[a], k)) for k in range(n)] for a, (c, n) in enumerate(fn.ins)]
+    hyps = [h for row in ints for v in row for h in (v >= -128, v <= 128)]
+    leaves = {x.get_id(): ints[a][k] for a, row in enumerate(res.ins) for k, x in enumerate(row)}
+    cache = {}; B = 1 << 24
+    fnlist = ['w_%s -> %s' % (fname, fn.body.strip().replace('\n', ' ')[:160])]
+    binfo = 'entries integer-valued, |x| <= 2^7; bit-precise %s term of the compiled code; ll=%s' % (TYPES[t], U.ll_sha())
+    S.prove(name + '.witness', z3.BoolVal(False), hyps, timeout=20, kind='witness', functions=fnlist, bounds=binfo, expect='sat', mandatory=False)
+    allv = [v for row in ints for v in row]
+    def mkreplay(oi, k, ref):
+        def replay(m):
+            iv = [[m.eval(v, model_completion=True).as_long() for v in row] for row in ints]
+            fb = [[float_to_bits(float(x), W) for x in row] for row in iv]
+            sub = [(v, z3.IntVal(x)) for row, xr in zip(ints, iv) for v, x in zip(row, xr)]
+            want = z3.simplify(z3.substitute(ref, *sub)).as_long()
+            info = {'unit': U.name, 'fn': fname, 'inputs': [[hex(b) for b in row] for row in fb], 'expected_integer': want, 'pin_name': name}
+            bad = False
+            for cxx in ('g++', 'clang++-14'):
+                got = bits_to_float(U.call_native(fname, fb, cxx=cxx)[oi][k], W); info['native_' + cxx] = got
+                if got != float(want): bad = True
+            return ('reproduced' if bad else 'not-reproduced'), info
+        return replay
+    for (lab, oi, k, ref) in tab(ints):
+        if label_filter and not label_filter(lab): continue
+        nodes = []
+        try:
+            m = int_mirror(res.outs[oi][k].fp, leaves, W, nodes, cache)
+        except Structure as e:
+            S.rec(name='%s.%s.structure' % (name, lab), kind='structure', result='unknown', status='inconclusive', note=str(e), mandatory=True, functions=fnlist, bounds=binfo)
+            S.inconclusive.append('%s.%s [exact clause not established: %s appears in the float term]' % (name, lab, e)); continue
+        if nodes:
+            S.prove('%s.%s.intermediates-representable' % (name, lab), z3.And(*[z3.And(n < B, n > -B) for n in nodes]) if len(nodes) > 1 else z3.And(nodes[0] < B, nodes[0] > -B),
+                    hyps, timeout=S.cap(30, 90), kind='spec', functions=fnlist, bounds=binfo + '; %d fadd/fsub/fmul nodes' % len(nodes))
+        S.prove('%s.%s.value' % (name, lab), m == ref, hyps, timeout=S.cap(30, 90), kind='spec', functions=fnlist, bounds=binfo, replay=mkreplay(oi, k, ref), vars_=allv)
+
+def job_exact(t, fnames):
+    U = UNITS[t]
     def run(S):
-        for (K, R) in shapes:
-            fn = U.fns['mul_%d%d' % (K, R)]
-            ins, ints, hyps = small_int_inputs(fn, t, 'k')
-            tab = spec_mul(K, R)
-            def spec(i, o, ints=ints, tab=tab):
-                # i are float bit patterns (sitofp of the symbolic integers); the exact reference is the integer triple loop on those integers.
-                # On native replay i is concrete: recover the integers from the floats.
-                if z3.is_bv_value(z3.simplify(i[0][0])):
-                    ints = [[z3.simplify(z3.fpToSBV(RTZ, fpof(x), z3.BitVecSort(32))) for x in row] for row in i]
-                return [(lab, same(o[oi][k], ref)) for (lab, oi, k, ref) in tab(ints)]
-            S.check_fn(U, 'mul_%d%d' % (K, R), spec, lambda i, hyps=hyps: hyps, mode='fp', ins=ins, name='%s.mul_%d%d.exact' % (U.name, K, R), validate=0, side=False,
-                       timeout=S.cap(60, 120), bounds='every entry an integer with |x| <= 2^7 (symbolic 9-bit integer converted to %s); bit-precise IEEE arithmetic' % TYPES[t])
+        for f in fnames:
+            kind, sh = f.split('_'); C, R = int(sh[0]), int(sh[1])
+            tab = spec_mul(C, R) if kind == 'mul' else spec_ew(C, R)
+            exact_clause(S, U, f, tab, t)
+        # the fp-mode term used above is the one compared with native runs
+        for f in fnames: S.check_fn(U, f, None, mode='fp', side=False, witness=False, name='%s.%s.fpvalidate' % (U.name, f))
+    return run
+
+def job_ieee_lemma(t, op):
+    """IEEE correct rounding returns representable results exactly - the instances used by the exact clause, from the SMT-LIB FloatingPoint semantics"""
+    W = 32 if t == 'f32' else 64; srt = FSORT[W]
+    def run(S):
+        if op == 'mul':
+            i, j = z3.BitVec('i', 8), z3.BitVec('j', 8); hy = [z3.ULE(i, 128), z3.ULE(j, 128)]
+            x, y = z3.fpUnsignedToFP(RNE, i, srt), z3.fpUnsignedToFP(RNE, j, srt)
+            # signs: fp.mul is sign-symmetric by definition (sign = xor of signs, magnitude from magnitudes); proved on magnitudes
+            goal = z3.fpEQ(z3.fpMul(RNE, x, y), z3.fpUnsignedToFP(RNE, z3.ZeroExt(16, i) * z3.ZeroExt(16, j), srt)); bd = 'all integers 0 <= i, j <= 2^7 (magnitudes)'
+        else:
+            i, j = z3.BitVec('i', 19), z3.BitVec('j', 19); lim = 1 << 17; hy = [i >= -lim, i <= lim, j >= -lim, j <= lim]
+            x, y = z3.fpSignedToFP(RNE, i, srt), z3.fpSignedToFP(RNE, j, srt)
+            e = z3.SignExt(2, i) + z3.SignExt(2, j) if op == 'add' else z3.SignExt(2, i) - z3.SignExt(2, j)
+            goal = z3.fpEQ((z3.fpAdd if op == 'add' else z3.fpSub)(RNE, x, y), z3.fpSignedToFP(RNE, e, srt)); bd = 'all integers |i|, |j| <= 2^17'
+        S.prove('c02.ieee_lemma.%s.%s' % (op, t), goal, hy, timeout=S.cap(280, 1500), kind='lemma', functions=['fp.%s %s' % (op, TYPES[t])], bounds=bd, mandatory=not S.quick)
     return run
 
 def jobs(tier):
@@ -391,8 +478,10 @@ def jobs(tier):
             J.append(('cv_%s_%dxN' % (t, C), job_cv(t, [(C, r) for r in (2, 3, 4)])))
         J.append(('gtx_%s' % t, job_gtx(t)))
     for t in ('f32', 'f64'):
-        for (K, R) in SHAPES:
-            J.append(('exact_%s_%d%d' % (t, K, R), job_exact(t, [(K, R)])))
+        for C in (2, 3, 4):
+            J.append(('exact_%s_mul_%dxN' % (t, C), job_exact(t, ['mul_%d%d' % (C, r) for r in (2, 3, 4)])))
+            J.append(('exact_%s_ew_%dxN' % (t, C), job_exact(t, ['ew_%d%d' % (C, r) for r in (2, 3, 4)])))
+        for op in ('mul', 'add', 'sub'): J.append(('ieee_lemma_%s_%s' % (op, t), job_ieee_lemma(t, op)))
     if not q:
         for (t, qn), U in QUNITS.items():
             J.append(('q_%s_%s_mul' % (qn, t), job_mul(t, SHAPES, U)))
